@@ -60,6 +60,8 @@ class Gen:
             opts.append("cmp")
         if "attr_value" in self.feats and depth < 2:
             opts.append("attr")
+        if "boolop_inline" in self.feats and depth < 2:
+            opts.append("subscr")
         if opts and r < 0.5:
             return self.compound(self.rng.choice(opts), depth)
         if r > 0.93:
@@ -78,7 +80,7 @@ class Gen:
         if kind == "binop":
             return Node("binop", l=self.operand(depth + 1), r=self.operand(depth + 1))
         if kind == "neg":
-            return Node("neg", e=self.operand(depth + 1))
+            return Node("neg", e=self.inline_operand(depth + 1))
         if kind == "ev":
             return Node("ev", arg=self.fresh(), args=[self.operand(depth + 1) for _ in range(self.rng.randint(0, 2))])
         if kind == "cmp":
@@ -88,12 +90,21 @@ class Gen:
                 self.used.add("chain_cmp")
             return Node("cmp", l=self.operand(depth + 1), rs=[self.operand(depth + 1) for _ in range(n)])
         if kind == "attr":
-            return Node("attr", e=self.operand(depth + 1))
+            return Node("attr", e=self.inline_operand(depth + 1))
         if kind == "subscr":
-            return Node("subscr", e=self.operand(depth + 1), i=self.operand(depth + 1))
+            return Node("subscr", e=self.inline_operand(depth + 1), i=self.inline_operand(depth + 1))
         if kind == "not":
-            return Node("not", e=self.operand(depth + 1))
+            return Node("not", e=self.inline_operand(depth + 1))
         raise ValueError(kind)
+
+    def inline_operand(self, depth: int) -> Node:
+        """Operand of an operator the front end does NOT look into (unary minus, not, attribute base, subscript base / index): an and/or
+        written there stays an ordinary Python expression, so evaluation order must be exactly Python's (feature boolop_inline; no
+        known finding applies to it)."""
+        if "boolop_inline" in self.feats and self.rng.random() < 0.45:
+            self.used.add("boolop_inline")
+            return Node("boolop", op=self.rng.choice(["and", "or"]), vs=[self.atom(), self.atom()])
+        return self.operand(depth)
 
     def operand(self, depth: int) -> Node:
         """Operand of an operator / call: an atom, or (feature boolop_in_operand) an and/or, or a nested compound."""
@@ -415,6 +426,8 @@ def generate(seed: int, count: int, feats: Optional[Set[str]] = None, max_depth:
             fs = {f for f in FEATURES if rng.random() < 0.35 and f not in DEFAULT_OFF}
             if rng.random() < 0.12:      # a small share of programs exercises the documented evaluation-order limitation
                 fs |= {"boolop_in_operand", "boolop_nested", "boolop_test", "boolop_value"}
+            elif rng.random() < 0.25:    # and/or inside operators the front end leaves alone (must behave exactly like Python)
+                fs |= {"boolop_inline", "test_subscr", "test_attr", "test_not", "unary"}
         else:
             fs = set(feats)
         p = Gen(rng, fs, max_depth=rng.randint(1, max_depth), max_stmts=rng.randint(1, max_stmts)).program()
@@ -434,7 +447,7 @@ def programs_for_graphs(seed: int, count: int) -> List[str]:
 # ------------------------------------------------------------------------------------------------------------
 # Size-bounded EXHAUSTIVE generation of control skeletons (DESIGN 6.1): every program with at most `budget`
 # compound statements, nesting <= depth, whose tests are oracle calls and whose statements are call markers.
-def enumerate_control(budget: int = 3, depth: int = 3, with_for: bool = True) -> List["Program"]:
+def enumerate_control(budget: int = 3, depth: int = 3, with_for: bool = True, test_shape: str = "call") -> List["Program"]:
     counter = [0]
 
     def mark() -> Node:
@@ -443,6 +456,9 @@ def enumerate_control(budget: int = 3, depth: int = 3, with_for: bool = True) ->
 
     def test() -> Node:
         counter[0] += 1
+        if test_shape in ("and", "or"):      # every if / while test is a two-operand and/or of oracle calls (desugared into blocks)
+            counter[0] += 1
+            return Node("boolop", op=test_shape, vs=[Node("t", arg=counter[0] - 1), Node("t", arg=counter[0])])
         return Node("t", arg=counter[0])
 
     def terms(in_loop: bool) -> List[Optional[str]]:
@@ -500,7 +516,7 @@ def enumerate_control(budget: int = 3, depth: int = 3, with_for: bool = True) ->
     for shape, used in suites(budget, depth, False):
         counter[0] = 0
         body = build_suite(shape)
-        feats = {"core", "enumerated"}
+        feats = {"core", "enumerated"} | ({"boolop_test"} if test_shape in ("and", "or") else set())
         src_probe = Program(body, []).source()
         if "for " in src_probe:
             feats.add("for")
